@@ -1208,7 +1208,7 @@ class TaskCheck(object):
             if ctx.quick:
                 stops = sorted(set(rng.randrange(0, ncalls) for _ in range(2)))
             else:
-                stops = list(range(ncalls)) if ncalls <= 30 else sorted(set(rng.randrange(0, ncalls) for _ in range(10)))
+                stops = list(range(ncalls)) if ncalls <= 16 else sorted(set(rng.randrange(0, ncalls) for _ in range(6)))
             for sidx in stops:
                 fn = self.fresh_file()
                 p = rng.choice([1.0, 1.0, 0.5])
